@@ -34,7 +34,7 @@ def gen_file(rng, with_config=None, ecc=True):
         key = g.rbytes(rng, 15) + b"\x00"
     kinds = []
     pool = ["c", "e", "u"] if ecc else ["c", "u"]
-    n = rng.choice([1, 1, 2, 2, 3])
+    n = min(rng.choice([1, 1, 2, 2, 3]), len(pool))      # kinds are distinct: never ask for more than there are
     while len(kinds) < n:
         k = rng.choice(pool)
         if k not in kinds:
